@@ -111,3 +111,41 @@ def decode_listing(rows) -> dict:
                     raise FormatError(f'listing gives address {a} twice')
                 mem[a] = b
     return mem
+
+
+# ---------------------------------------------------------------- tokenisers for spec/Trace_Formats.tla (no judgement here)
+
+BAD_ITEM = {'intel_hex': {'n': 0, 'addr': 0, 'typ': 99, 'data': [], 'chk': 0},
+            'hex': {'addr': 0, 'cols': []},
+            'minhex': {'k': 'data', 'a': 0, 'data': [999]}}
+
+
+def tokenise(fmt: str, text: str) -> list:
+    """Output text -> items of Formats.tla. Anything that cannot even be split into numbers becomes an item the
+    specification rejects (unknown record type, row without sixteen columns, byte 999)."""
+    items = []
+    for raw in text.splitlines():
+        line = raw.strip()
+        if not line:
+            continue
+        try:
+            if fmt == 'intel_hex':
+                if not line.startswith(':'):
+                    raise ValueError
+                d = bytes.fromhex(line[1:])
+                if len(d) < 5:
+                    raise ValueError
+                items.append({'n': d[0], 'addr': (d[1] << 8) | d[2], 'typ': d[3], 'data': list(d[4:-1]), 'chk': d[-1]})
+            elif fmt == 'hex':
+                m = _DUMP.match(raw)
+                if not m:
+                    raise ValueError
+                items.append({'addr': int(m.group(1), 16), 'cols': [-1 if c == '--' else int(c, 16) for c in m.group(2).split()]})
+            else:
+                if line.startswith(':'):
+                    items.append({'k': 'data', 'a': 0, 'data': [int(t, 16) if re.fullmatch(r'[0-9a-fA-F]{2}', t) else 999 for t in line[1:].split()]})
+                else:
+                    items.append({'k': 'addr', 'a': int(line, 16), 'data': []})
+        except ValueError:
+            items.append(dict(BAD_ITEM[fmt]))
+    return items
